@@ -608,12 +608,12 @@ pub unsafe fn app(case: &Case, wp: *mut World) -> AppOut {
     out
 }
 
-/// what the stream comparison found, if anything
 fn is_subseq(small: &[u8], big: &[u8]) -> bool {
     let mut it = big.iter();
     small.iter().all(|x| it.any(|y| y == x))
 }
 
+/// what the stream comparison found, if anything
 pub fn classify_stream(want: &[u8], got: &[u8]) -> Option<&'static str> {
     if want == got {
         return None;
